@@ -606,12 +606,32 @@ def check(ck):
     ck.ob(R5, "call_stack::thread-local", len(tl) == 1, "one threading.local() holds the call stack" if len(tl) == 1 else
           "call_stack no longer keeps its state in a threading.local()", cs.relpath)
     ctor_sites = ck.cg.call_sites_of(lambda c, cands: A.call_attr(c) == "CallStack" and isinstance(c.func, ast.Name))
+    stored_ctor = set()
     for (fi, c, _) in ctor_sites:
         fa = FA(ck, fi)
         st = fa.stmt_of(c)
-        # the new stack is bound to an attribute of the thread-local object (named directly or through a local alias)
-        ok = fi.qual == "call_stack.CallStack.get" and isinstance(st, ast.Assign) and tl and st.value is c and \
-            all(isinstance(t, ast.Attribute) and t.attr == "call_stack" and _xs(fa, t.value, st) == tl[0] for t in st.targets)
+
+        def tl_store(s2, value_ok):
+            """`<thread-local>.call_stack = <value>` (the thread-local object named directly or through a local alias)"""
+            return isinstance(s2, ast.Assign) and value_ok(s2.value) and \
+                any(isinstance(t, ast.Attribute) and t.attr == "call_stack" and tl and _xs(fa, t.value, s2) == tl[0] for t in s2.targets)
+
+        ok = False
+        if fi.qual == "call_stack.CallStack.get" and isinstance(st, ast.Assign) and st.value is c:
+            if tl_store(st, lambda v: v is c):
+                # the new stack is bound straight to an attribute of the thread-local object
+                ok = True
+            else:
+                # ... or to a local first: every way on from there stores that very local into the thread-local object
+                names = [t.id for t in st.targets if isinstance(t, ast.Name)]
+                for nm in names:
+                    stores = [s2 for s2 in fa.stmts(ast.Assign) if tl_store(s2, lambda v: isinstance(v, ast.Name) and v.id == nm)
+                              and all(len(fa.df.reaching(i, nm)) == 1 and fa.df.reaching(i, nm)[0].node in fa.nodes(st) for i in fa.nodes(s2))]
+                    sn = fa.nodes_all(stores)
+                    if stores and all(fa.cfg.exit not in fa.cfg.reach([i], removed=sn, include_start=False) for i in fa.nodes(st)):
+                        ok = True
+        if ok:
+            stored_ctor.add(id(c))
         ck.ob(R5, fa.key(c, "created-into-thread-local"), bool(ok), "a new CallStack goes straight into thread-local storage" if ok else
               "a CallStack is created outside CallStack.get / not stored in thread-local storage", fa.where(c))
     shared = []
@@ -630,7 +650,31 @@ def check(ck):
           "a call stack / frame container is shared across threads: %s" % (shared[0],), shared[0][0] if shared else cs.relpath)
     g = FA(ck, "call_stack.CallStack.get")
     rets = g.returns()
-    okg = bool(rets) and tl and all(r.value is not None and _xs(g, r.value, r) == tl[0] + ".call_stack" for r in rets)
+
+    def own_stack(v, at) -> bool:
+        """the value is the calling thread's stack: read from the thread-local object, or the stack just created and stored there"""
+        if not tl:
+            return False
+        try:
+            x = g.expand(v, at)
+        except AnalysisError:
+            x = v
+        if A.norm(x) == tl[0] + ".call_stack" or id(v) in stored_ctor:
+            return True
+        # getattr(<thread-local>, "call_stack" [, default]): the default only stands in until a new stack is stored
+        return isinstance(x, ast.Call) and isinstance(x.func, ast.Name) and x.func.id == "getattr" and len(x.args) >= 2 \
+            and A.norm(x.args[0]) == tl[0] and A.const_str(x.args[1]) == "call_stack"
+
+    def ret_ok(r):
+        if r.value is None:
+            return False
+        if not g.nodes(r):
+            # code the explicit-edge CFG cannot reach (a handler of a try body that cannot raise): judged on its text
+            return bool(tl) and _xs(g, r.value, r) == tl[0] + ".call_stack"
+        srcs = _sources(g, r)
+        return bool(srcs) and all(own_stack(v, at) for (v, at) in srcs)
+
+    okg = bool(rets) and tl and all(ret_ok(r) for r in rets)
     ck.ob(R5, g.key(None, "get-returns-thread-local"), bool(okg), "CallStack.get returns the calling thread's stack" if okg else
           "CallStack.get does not return the thread-local stack", g.where())
     ini = FA(ck, "call_stack.CallStack.__init__")
